@@ -168,6 +168,56 @@ func goLeafType(t reflect.Type, path []string) string {
 	return t.String()
 }
 
+// underOptionalValueStruct: some ancestor of the leaf at path is an optional schema node fed by a
+// non-pointer Go struct field.
+func underOptionalValueStruct(schema *parquet.Schema, t reflect.Type, path []string) bool {
+	var n parquet.Node = schema
+	for len(path) > 0 {
+		for t.Kind() == reflect.Ptr {
+			t = t.Elem()
+		}
+		switch {
+		case t.Kind() == reflect.Slice && t.Elem().Kind() != reflect.Uint8:
+			if len(path) >= 2 && path[0] == "list" && path[1] == "element" {
+				n = fieldNamed(fieldNamed(n, "list"), "element")
+				path = path[2:]
+			}
+			t = t.Elem()
+		case t.Kind() == reflect.Struct && t.String() != "time.Time":
+			ft, ok := c03FieldType(t, path[0])
+			if !ok {
+				return false
+			}
+			n = fieldNamed(n, path[0])
+			if n == nil {
+				return false
+			}
+			if n.Optional() && ft.Kind() == reflect.Struct && ft.String() != "time.Time" {
+				return true
+			}
+			t, path = ft, path[1:]
+		default:
+			return false
+		}
+		if n == nil {
+			return false
+		}
+	}
+	return false
+}
+
+func fieldNamed(n parquet.Node, name string) parquet.Node {
+	if n == nil || n.Leaf() {
+		return nil
+	}
+	for _, f := range n.Fields() {
+		if f.Name() == name {
+			return f
+		}
+	}
+	return nil
+}
+
 // colKey: column description for failure keys — repetition pattern of the ancestors, physical
 // type, and the Go leaf type with the logical type when the leaf is not the plain image of its Go
 // type (width tags, time, decimal, uuid, ...), so that defects of different conversions get
@@ -175,6 +225,11 @@ func goLeafType(t reflect.Type, path []string) string {
 func colKey(e *gen.Entry, ci int) string {
 	d := colDesc(e.Schema, ci)
 	path := e.Schema.Columns()[ci]
+	if underOptionalValueStruct(e.Schema, e.Type, path) {
+		// an optional ancestor that is a NON-pointer Go struct (null = the zero struct): a wrapper
+		// of its own on the typed path, so its defects get keys of their own
+		d = strings.Replace(d, ":", "~struct:", 1)
+	}
 	leaf, _ := e.Schema.Lookup(path...)
 	gt := goLeafType(e.Type, path)
 	plain := map[string]string{"BOOLEAN": "bool", "FLOAT": "float32", "DOUBLE": "float64"}
@@ -355,8 +410,12 @@ func RunC03(ctx *core.Ctx) {
 	wg.Wait()
 	// types with Go maps: entry order is unspecified, so the paths are compared value-wise:
 	// re-assembly of the shredded row, and every ingestion path read back with Read[T]
-	for _, e := range gen.MapCatalog {
+	for _, e := range append(append([]*gen.Entry(nil), gen.MapCatalog...), gen.MapValueOptCatalog...) {
 		r := ctx.Rand("c03map/" + e.Name)
+		mapTag := "map"
+		if e.Shape != "" {
+			mapTag = "map shape=" + e.Shape // a field shape of its own: its defects get keys of their own
+		}
 		for k := 0; k < ctx.Scale(40, 400); k++ {
 			n := 1 + r.Intn(6)
 			rows := e.NewRows(n)
@@ -370,34 +429,34 @@ func RunC03(ctx *core.Ctx) {
 			}
 			back, err := e.Reconstruct(rows.Interface())
 			if err != nil {
-				ctx.Fail("L1", "reconstruct-error map "+errClass(err), "Schema.Reconstruct(Deconstruct(v)) failed: "+err.Error(), map[string]any{"type": e.Name, "rows": fmt.Sprintf("%+v", rows.Interface())})
+				ctx.Fail("L1", "reconstruct-error "+mapTag+" "+errClass(err), "Schema.Reconstruct(Deconstruct(v)) failed: "+err.Error(), map[string]any{"type": e.Name, "rows": fmt.Sprintf("%+v", rows.Interface())})
 			} else if ok, diff := gen.CanonEqualOpt(rows, reflect.ValueOf(back), e.Name); !ok {
-				ctx.Fail("L1", "reconstruct-differs map", "Schema.Reconstruct(Deconstruct(v)) differs from v: "+diff, map[string]any{"type": e.Name, "rows": fmt.Sprintf("%+v", rows.Interface()), "diff": diff})
+				ctx.Fail("L1", "reconstruct-differs "+mapTag, "Schema.Reconstruct(Deconstruct(v)) differs from v: "+diff, map[string]any{"type": e.Name, "rows": fmt.Sprintf("%+v", rows.Interface()), "diff": diff})
 			}
 			for _, p := range c03Paths {
 				file, err := p.write(e, rows.Interface(), nil, r)
 				if err != nil {
-					ctx.Fail("L1", "path-error map path="+p.name+" "+errClass(err), "ingestion path failed on a valid value: "+err.Error(), map[string]any{"type": e.Name, "rows": fmt.Sprintf("%+v", rows.Interface())})
+					ctx.Fail("L1", "path-error "+mapTag+" path="+p.name+" "+errClass(err), "ingestion path failed on a valid value: "+err.Error(), map[string]any{"type": e.Name, "rows": fmt.Sprintf("%+v", rows.Interface())})
 					continue
 				}
 				// the stored streams, up to the order of map entries: which positions are null
 				// (definition levels) is the same on every path
 				if cols, err := gen.ReadColumns(file); err != nil {
-					ctx.Fail("L1", "readback-error map path="+p.name+" "+errClass(err), "stored streams cannot be read back: "+err.Error(), map[string]any{"type": e.Name, "rows": fmt.Sprintf("%+v", rows.Interface())})
+					ctx.Fail("L1", "readback-error "+mapTag+" path="+p.name+" "+errClass(err), "stored streams cannot be read back: "+err.Error(), map[string]any{"type": e.Name, "rows": fmt.Sprintf("%+v", rows.Interface())})
 				} else if c, i, desc := unorderedDiff(all.Cols, cols); c != -2 {
 					cd := "?"
 					if c >= 0 {
 						cd = colKey(e, c)
 					}
-					ctx.Fail("L1", "stream-mismatch map path="+p.name+" col="+cd,
+					ctx.Fail("L1", "stream-mismatch "+mapTag+" path="+p.name+" col="+cd,
 						fmt.Sprintf("path %s stores a different Dremel stream than the documented mapping (compared up to map entry order): column %d row %d: %s", p.name, c, i, desc),
 						map[string]any{"type": e.Name, "path": p.name, "schema": gen.NodeText(e.Schema), "rows": valTexts, "go_rows": fmt.Sprintf("%+v", rows.Interface()), "column": c, "row": i})
 				}
 				got, err := e.ReadAll(bytes.NewReader(file), int64(len(file)))
 				if err != nil {
-					ctx.Fail("L1", "readback-error map path="+p.name+" "+errClass(err), err.Error(), map[string]any{"type": e.Name, "rows": fmt.Sprintf("%+v", rows.Interface())})
+					ctx.Fail("L1", "readback-error "+mapTag+" path="+p.name+" "+errClass(err), err.Error(), map[string]any{"type": e.Name, "rows": fmt.Sprintf("%+v", rows.Interface())})
 				} else if ok, diff := gen.CanonEqual(rows, reflect.ValueOf(got), e.Name); !ok {
-					ctx.Fail("L1", "value-mismatch map path="+p.name, "rows read back differ: "+diff, map[string]any{"type": e.Name, "rows": fmt.Sprintf("%+v", rows.Interface()), "diff": diff})
+					ctx.Fail("L1", "value-mismatch "+mapTag+" path="+p.name, "rows read back differ: "+diff, map[string]any{"type": e.Name, "rows": fmt.Sprintf("%+v", rows.Interface()), "diff": diff})
 				}
 			}
 		}
